@@ -233,6 +233,7 @@ func (p *parser) parseFunc() Node {
 	}
 	p.assertEnd()
 	p.advance()
+	p.assertEOL() // nothing but a comment may follow `end`
 	p.recordComment(block)
 	p.advancePastNL()
 	fd.Body = block
@@ -289,6 +290,7 @@ func (p *parser) parseEventHandler() Node {
 	e.Body = p.parseBlock()
 	p.assertEnd()
 	p.advance()
+	p.assertEOL() // nothing but a comment may follow `end`
 	p.recordComment(e.Body)
 	p.advancePastNL()
 	return e
@@ -894,6 +896,7 @@ func (p *parser) parseForStatement() Node {
 	forNode.Block = p.parseBlock()
 	p.assertEnd()
 	p.advance()
+	p.assertEOL() // nothing but a comment may follow `end`
 	p.recordComment(forNode.Block)
 	p.advancePastNL()
 	return forNode
@@ -939,6 +942,7 @@ func (p *parser) parseWhileStatement() Node {
 	p.recordCommentString(&while.ConditionalBlock, comment)
 	p.assertEnd()
 	p.advance()
+	p.assertEOL() // nothing but a comment may follow `end`
 	p.recordComment(while.ConditionalBlock.Block)
 	p.advancePastNL()
 	return while
@@ -981,6 +985,7 @@ func (p *parser) parseIfStatement() Node {
 	}
 	p.assertEnd()
 	p.advance()
+	p.assertEOL() // nothing but a comment may follow `end`
 	p.recordComment(ifStmt)
 	p.advancePastNL()
 	return ifStmt
